@@ -43,7 +43,7 @@ CLAIMS = {
          "Bounds: names <= 4-5 bytes over letters and '-', <= 2-3 versions from a catalogue; install-time selection and constraint resolution in cmd/root.go are outside (HTTP/JSON).", "§5 C28"),
  "C30": ("String literals and identifiers with arbitrary symbolic content survive print -> lex (one token, same bytes); a catalogue of 61 statements covering OctoSQL's extensions survives parse -> print -> parse with an identical tree (independent dump) and identical text.",
          "Bounds: literals <= 2-3 bytes, identifiers <= 3 bytes; statements outside the catalogue are outside.", "§5 C30"),
- "C01": ("For each query of a 15-shape single-source catalogue (WHERE, projections, DISTINCT, ORDER BY, LIMIT, subquery in FROM, WITH, COALESCE) and every table within the bounds, the real pipeline "
+ "C01": ("For each query of a 16-shape single-source catalogue (WHERE, projections, DISTINCT, ORDER BY, LIMIT, subquery in FROM, WITH, COALESCE) and every table within the bounds, the real pipeline "
          "(SQL parser, logical plan, typechecker, optimizer, Materialize, execution nodes, top-level ORDER BY/LIMIT wiring) executed symbolically returns exactly the multiset (and order) a hand-written reference of SQL semantics defines.",
          "Bounds: t(a,b) 0..2 (quick) / 0..3 (thorough) rows, cells Int over all 2^64 values or NULL. Partial: catalogue queries only, Int|NULL columns only.", "§5 C01"),
  "C04": ("Differential: for each of 35 rewrite-triggering query shapes and every pair of tables within the bounds, the plan after the real optimizer.Optimize fixpoint and the unoptimized plan, both materialised and run "
